@@ -17,7 +17,8 @@ def load_checks():
             if isinstance(node, ast.Assign) and len(node.targets) == 1 and isinstance(node.targets[0], ast.Name):
                 if node.targets[0].id in ("TECHNIQUE", "LEVEL_TEXT", "LEVEL_NOTE", "LEVEL", "REGISTERED"):
                     vals[node.targets[0].id] = ast.literal_eval(node.value)
-        if vals.get("REGISTERED", True) and "TECHNIQUE" in vals:
+        registered = [l.strip() for l in open(os.path.join(H, "tools", "registered.txt")) if l.strip()]
+        if pid in registered and "TECHNIQUE" in vals:
             out[pid] = (vals["TECHNIQUE"], vals["LEVEL_TEXT"], vals["LEVEL_NOTE"], "4/" + pid, vals.get("LEVEL", "exploration"))
     return out
 
